@@ -314,7 +314,8 @@ def run_real(scens, wd, tag, timeout=2400):
     rest = [f for f in fails if "channel mirror out of range" not in f]
     # "watchdog" while waiting for a report the counters promised: re-run the scenario alone twice; if the report
     # never arrives in any run it is an observation (a checkpoint with neither a report nor a counted drop), else a flake
-    wd_fail = [f for f in rest if f.endswith("watchdog") and "step finish" in f or "step await" in f]
+    # (whatever step was waiting for it: finish, await, or the append that queued the checkpoint)
+    wd_fail = [f for f in rest if f.endswith("watchdog")]
     if wd_fail and tag != "retry":
         byid_ = {s["id"]: s for s in scens}
         confirmed = []
